@@ -17,6 +17,8 @@ def R(mod, name, cfg="rc"):
         m = importlib.import_module(f"kv.rules.{mod}")
         return getattr(m, name)(ctx(cfg), tier)
     run.__name__ = name
+    run._mod = mod
+    run._cfg = cfg
     return run
 
 
@@ -209,3 +211,19 @@ NOT_APPLICABLE = {
     "C09": "every clause constrains numeric cursor values computed from the input's characters; no structural "
            "necessary condition exists (DESIGN.md section 5)",
 }
+
+
+# rules whose crates also exist in the arc build set (memory, lexer, parser, bytecode, runtime, koto)
+_ARC_OK = {"vm", "compiler", "placeholder", "borrow", "iters", "arith", "tc", "values", "dispatch", "enc", "strings"}
+_NOT_ARC = {"rule_indent_chain"}   # needs the koto crate's serde-enabled error conversions only partially; rc suffices
+
+
+def arc_variants(prop):
+    """the property's rc rules re-instantiated on the arc facts (thorough tier)"""
+    out = []
+    for rf in PROPS[prop]["rules"]:
+        mod = getattr(rf, "_mod", None)
+        cfg = getattr(rf, "_cfg", "rc")
+        if cfg == "rc" and mod in _ARC_OK and rf.__name__ not in _NOT_ARC:
+            out.append(R(mod, rf.__name__, "arc"))
+    return out
